@@ -146,23 +146,31 @@ From P9V Require Refs.CoherentDefs Refs.CoherentHist Refs.NotifiedDeep Refs.Noti
     the victim subtree is fenced first; level 0 is told target-path/new-name (CoherentRenLoop), every level
     below parent-path/name in pre-order (NotifiedDeep.notified_below_be + CoherentRenDeep.deep_pure: induction on
     depth, "when a node is reached every fidRef whose node it is already has the node's path").
-    Only hypothesis: the run-time panic flag of the path-tree code is not set at the end of the history
-    (it is sticky, so: no request of the history answered EFAULT from nameFor / addChild / addPathNodeFor /
-    removeChild / trename's assertion; the model's renameChildTo skips notifyNameChange once the flag is set).
-    The tree invariant tree_ok is C08_tree_inv (serverB); "a live non-fenced fidRef has a non-fenced parent"
-    (T_deleted for fidRefs) is part of the invariant [CoherentDefs.Good] and proved here for PathFS histories. *)
+    NO hypothesis: the class of histories is exactly - PathFS backend (Refs/PathFS.v), any WalkGetAttr setting,
+    any errno / bad-QID injection list (PathFS has no panic injection: backend panics are outside this class),
+    sequential, from the initial state.  For these histories the run-time panics of the path-tree code
+    (nameFor, addChild, addPathNodeFor, removeChild, nil parent, trename's assertion) are unreachable
+    ([C08_no_tree_panic]; Refs/CoherentPanic*.v: every set_panic site of Refs/Model.v is excluded), which the
+    proof needs because the model's renameChildTo skips notifyNameChange once the panic flag is set.
+    tree_ok is C08_tree_inv (serverB); "a live non-fenced fidRef has a non-fenced parent" is part of [Good]. *)
 Theorem C08_coherent : forall ops wga inj,
-  s_panic pfs (snd (run pfs pfs_step ops (init_state pfs (pfs_init wga inj)))) = false ->
   let r := P9V.Refs.CoherentDefs.run_g ops (init_state pfs (pfs_init wga inj)) [] in
   P9V.Refs.CoherentDefs.coherent (fst r) (snd r).
 Proof.
-  intros ops wga inj H. apply P9V.Refs.CoherentHist.coherent_history; [|exact H].
+  intros ops wga inj. apply P9V.Refs.CoherentHist.coherent_history_u.
   intros pre post E. apply TreeStep.tree_inv_history.
 Qed.
 Print Assumptions C08_coherent.
 
-(** without any hypothesis (neither tree_ok nor the panic flag): every request kind except Tunlinkat / Tremove /
-    Trename / Trenameat *)
+Theorem C08_no_tree_panic : forall ops wga inj,
+  s_panic pfs (snd (run pfs pfs_step ops (init_state pfs (pfs_init wga inj)))) = false.
+Proof.
+  intros ops wga inj. apply P9V.Refs.NotifiedRename.reach_inv_history.
+  intros pre post E. apply TreeStep.tree_inv_history.
+Qed.
+Print Assumptions C08_no_tree_panic.
+
+(** the same without using C08_tree_inv: every request kind except Tunlinkat / Tremove / Trename / Trenameat *)
 Theorem C08_coherent_partial : forall ops wga inj,
   Forall P9V.Refs.CoherentHist.covered ops ->
   let r := P9V.Refs.CoherentDefs.run_g ops (init_state pfs (pfs_init wga inj)) [] in
@@ -171,8 +179,8 @@ Proof. exact P9V.Refs.CoherentHist.coherent_history_covered. Qed.
 Print Assumptions C08_coherent_partial.
 (** C08_notified (Refs/NotifiedRename.v, PathFS backend), for the renameChildTo of a Trename / Trenameat whose
     RenameAt the backend accepted, from any state satisfying the invariants (count invariant RefInvD, tree_ok,
-    CoherentDefs.Good; [C08_notified_states]: every state of every PathFS history that ends without the panic
-    flag, and LookupFID keeps them), provided the request itself ends without the panic flag:
+    CoherentDefs.Good; [C08_notified_states]: EVERY state of EVERY PathFS history - same class as C08_coherent, no
+    hypothesis - and LookupFID keeps them), the request ending without the panic flag (always: C08_no_tree_panic):
     the Renamed calls in the log ([rcalls] = the log filtered to Renamed, oldest first) are exactly
       (level 0) Renamed(File of q, File of the TARGET, NEW NAME) for every fidRef q registered under the old
                 name before the request ([regd]; all are live and have a parent whose node is the source
@@ -183,8 +191,12 @@ Print Assumptions C08_coherent_partial.
                 nodes (pre-order).
     So a level-0 fidRef's new parent is the rename target, and a fidRef registered in node n (its parent's
     node is n, tree_ok T_reg) is told after all fidRefs of n's parent node.
-    PARTIAL in two respects: (1) "parent told earlier" is given by the pre-order shape of [NotifiedDeep.below]
-    (definition) and not restated as a theorem about positions in the log; (2) the list below the moved node
+    "Parent told earlier" as positions in the log: [C08_notified_parents_first] - for a node m' at or below the
+    moved node and each child node m of it, the calls for the fidRefs registered in m' (the parents: their node
+    is m) all come before the calls for the fidRefs registered in m (T_reg: their parent's node is m); the
+    level-0 calls come before everything below (the parents of the fidRefs registered in the moved node are
+    level-0 fidRefs; the parent of a level-0 fidRef is the target, which is told nothing).
+    PARTIAL in one respect: the list below the moved node
     is expressed on the state after level 0 ([CoherentRename.SC]: same nodes and registrations at or below the
     moved node except that dead fidRefs are unregistered) rather than on the state before the request; and the
     statement is for PathFS, not for every backend (the calls do not depend on the backend's answers). *)
@@ -208,13 +220,20 @@ Proof. exact P9V.Refs.NotifiedRename.notified_rename. Qed.
 Print Assumptions C08_notified.
 
 Theorem C08_notified_states : forall ops wga inj,
-  s_panic pfs (snd (run pfs pfs_step ops (init_state pfs (pfs_init wga inj)))) = false ->
   P9V.Refs.NotifiedRename.reach_inv (snd (run pfs pfs_step ops (init_state pfs (pfs_init wga inj)))).
 Proof.
-  intros ops wga inj H. apply P9V.Refs.NotifiedRename.reach_inv_history; [exact H|].
+  intros ops wga inj. apply P9V.Refs.NotifiedRename.reach_inv_history.
   intros pre post E. apply TreeStep.tree_inv_history.
 Qed.
 Print Assumptions C08_notified_states.
+
+Theorem C08_notified_parents_first : forall B s k fuel n m' x m,
+  P9V.Refs.NotifiedDeep.down B s n m' k -> In (x, m) (pn_nodes (get_node B s m')) -> S k < fuel ->
+  exists A Bm C, flat_map (P9V.Refs.NotifiedDeep.tell B s) (P9V.Refs.NotifiedDeep.below B fuel s n) =
+    A ++ flat_map (P9V.Refs.NotifiedDeep.tell B s) (P9V.Refs.NotifiedDeep.regs_of (get_node B s m')) ++ Bm ++
+         flat_map (P9V.Refs.NotifiedDeep.tell B s) (P9V.Refs.NotifiedDeep.regs_of (get_node B s m)) ++ C.
+Proof. exact P9V.Refs.NotifiedDeep.told_order. Qed.
+Print Assumptions C08_notified_parents_first.
 
 (** the part below the moved entry, every state and every backend (Refs/NotifiedDeep.v) *)
 Theorem C08_notified_below_partial : forall B bstep fuel n held s,
